@@ -9,6 +9,7 @@ from ..astutil import bind_call, deref, names_in, walk_stmts
 from ..cfg import cfg_of
 from ..consteval import ConstEval, NotConstant
 from ..model import src_of
+from .c19_semantics import _is_documented_writer, input_base
 
 PROP = "C19"
 LEVEL = "other"
@@ -56,7 +57,13 @@ def run(ctx):
     ce = ConstEval(prog)
     ctx.clauses_decided = ["R1 one line per atom, in order", "R2 default atom line", "R3 rounding", "R4 precedence", "R5 defaults and run types", "R6 error contract of write_input"]
     ctx.clauses_declined = ["content of user templates", "numeric formatting of coordinates"]
-    base = prog.func("iodata.inputs.common.write_input_base")
+    ctx.rule("R9", "every registered input module is a documented program writer", "a helper module exposing `write_input` becomes a program name: an unknown program no longer raises FileFormatError")
+    from .c19_semantics import check_registered_programs
+
+    check_registered_programs(ctx, "R9")
+    if any(not _is_documented_writer(prog, prog.funcs.get(f"{m.name}.write_input")) if prog.funcs.get(f"{m.name}.write_input") else True for m in prog.input_modules().values()):
+        return  # the rules below are stated per program: decided once the registry holds programs only
+    base = input_base(prog)
     fh, data, template, atom_line, user = base.posparams[:5]
 
     # locate `fields` (the dict formatted into the template)
